@@ -989,17 +989,28 @@ fn emit_raw(out: &mut CaseOut, idx: usize, e: Endianness, kind: Kind, bytes: &[u
 /// structured damage on the parameter level (real reader and writer do the parsing/re-writing):
 /// drop a parameter (-> defaults / MissingField), duplicate one (-> first occurrence wins, get_all
 /// collects), swap two, or replace a value by a shorter/longer one
-fn mutate_params(r: &mut Rng, e: Endianness, bytes: &[u8]) -> Option<(Vec<u8>, &'static str)> {
+fn mutate_params(
+  r: &mut Rng,
+  e: Endianness,
+  bytes: &[u8],
+  drop_pid: bool,
+) -> Option<(Vec<u8>, &'static str)> {
   let mut pl = ParameterList::read_from_buffer_with_ctx(e, bytes).ok()?;
   let n = pl.parameters.len();
   if n == 0 {
     return None;
   }
   let i = r.below(n as u64) as usize;
-  let how = match r.below(5) {
+  let how = match if drop_pid { 5 } else { r.below(5) } {
     0 => {
       pl.parameters.remove(i);
       "drop_param"
+    }
+    5 | 6 => {
+      // every occurrence of one id disappears: the field must take its default (or MissingField)
+      let id = pl.parameters[i].parameter_id;
+      pl.parameters.retain(|p| p.parameter_id != id);
+      "drop_pid"
     }
     1 => {
       let p = pl.parameters[i].clone();
@@ -1039,7 +1050,7 @@ fn mutate_params(r: &mut Rng, e: Endianness, bytes: &[u8]) -> Option<(Vec<u8>, &
 /// hostile stream: damage a valid encoding, or random bytes
 fn mutate(r: &mut Rng, e: Endianness, bytes: &[u8]) -> (Vec<u8>, &'static str) {
   let mut b = bytes.to_vec();
-  match r.below(12) {
+  match r.below(16) {
     0 => {
       let n = r.below(b.len() as u64 + 1) as usize;
       b.truncate(n);
@@ -1089,7 +1100,11 @@ fn mutate(r: &mut Rng, e: Endianness, bytes: &[u8]) -> (Vec<u8>, &'static str) {
       }
       (b, "utf8_byte")
     }
-    7 | 8 | 9 | 10 => match mutate_params(r, e, bytes) {
+    7 | 8 | 9 => match mutate_params(r, e, bytes, false) {
+      Some(x) => x,
+      None => (b, "unchanged"),
+    },
+    10 | 11 | 12 | 13 => match mutate_params(r, e, bytes, true) {
       Some(x) => x,
       None => (b, "unchanged"),
     },
